@@ -4,14 +4,10 @@ use std::fs::File;
 use std::io::BufRead;
 use std::io::BufReader;
 use std::ops::Add;
-use std::ops::Index;
 use std::path::Path;
-use std::sync::LazyLock;
-use regex::Captures;
 use regex::Error;
 use regex::Regex;
 
-use crate::util::error_exit;
 
 #[derive(Clone, Debug)]
 pub struct DockerignoreFilter {
@@ -141,26 +137,24 @@ fn convert_dockerignore_pattern(
     }
 }
 
-static DOCKER_CONVERT_REPLACE_REGEX: LazyLock<Regex> = LazyLock::new(|| {
-    Regex::new("(\\*\\*|\\?|\\.|\\*)").unwrap()
-});
-
 fn convert_dockerignore_glob(glob: &str, file_path: &Path) -> Result<Regex, Error> {
-    let mut pattern = DOCKER_CONVERT_REPLACE_REGEX
-        .replace_all(glob, |c: &Captures| {
-            match c.index(0) {
-                "**" => ".*",
-                "." => "\\.",
-                "*" => "[^/]*",
-                "?" => "[^/]",
-                _ => error_exit(".dockerignore", "Error parsing pattern"),
-            }
-            .to_string()
-        })
-        .to_string();
+    // a leading separator anchors nothing here: drop it before the text is translated
+    let glob = glob.trim_start_matches(['/', '\\']);
 
-    while pattern.starts_with("/") || pattern.starts_with("\\") {
-        pattern.remove(0);
+    // `**` is any run of characters, `*` a run within one path component, `?` one character
+    // of a component; every other character stands for itself
+    let mut pattern = String::new();
+    let mut chars = glob.chars().peekable();
+    while let Some(c) = chars.next() {
+        match c {
+            '*' if chars.peek() == Some(&'*') => {
+                chars.next();
+                pattern.push_str(".*");
+            }
+            '*' => pattern.push_str("[^/]*"),
+            '?' => pattern.push_str("[^/]"),
+            _ => pattern.push_str(&regex::escape(&c.to_string())),
+        }
     }
 
     #[cfg(windows)]
@@ -173,7 +167,7 @@ fn convert_dockerignore_glob(glob: &str, file_path: &Path) -> Result<Regex, Erro
     #[cfg(not(windows))]
     let path = file_path.to_string_lossy().to_string();
 
-    pattern = path.replace("\\", "\\\\").add("/([^/]+/)*").add(&pattern);
+    pattern = regex::escape(&path).add("/([^/]+/)*").add(&pattern);
 
     Regex::new(&pattern)
 }
